@@ -5,6 +5,7 @@ test and records a canonical outcome.  Also reports the issubclass table and the
 hierarchy as the interpreter sees them (inputs of the model, CPython built-ins)."""
 import abc
 import inspect
+import types as pytypes
 import warnings
 import os
 import signal
@@ -85,6 +86,16 @@ def build_types(case):
         ts.append(meta(d.get("name", "T%d" % i), bases, {"__module__": "verif_c17_module_%d" % i}))
     for a, b in case.get("regs", []):
         ts[a].register(ts[b])
+    for cls, protos in case.get("provides", []):       # the documented decorator: @provides(P1, P2, ...) class K
+        traits_api.provides(*[ts[p_] for p_ in protos])(ts[cls])
+    # the fictitious modules exist, so that 'module.Name' strings can be resolved by import_symbol (lazy offers)
+    for i, t in enumerate(ts):
+        if t.__module__ != "builtins":
+            mod = sys.modules.get(t.__module__) or pytypes.ModuleType(t.__module__)
+            for k in [k for k in vars(mod) if not k.startswith("__")]:
+                delattr(mod, k)
+            setattr(mod, t.__name__, t)
+            sys.modules[t.__module__] = mod
     return ts
 
 
@@ -113,8 +124,22 @@ def run_case(case):
     m = AdaptationManager()
     noffers = [0]
 
+    fmod = pytypes.ModuleType("verif_c17_factories")
+    sys.modules["verif_c17_factories"] = fmod
+
+    def dotted(t):
+        return "%s.%s" % (t.__module__, t.__name__)
+
     def add_offer(f, t, fac):
-        m.register_offer(AdaptationOffer(factory=make_factory(noffers[0], fac), from_protocol=ts[f], to_protocol=ts[t]))
+        factory = make_factory(noffers[0], fac)
+        if case.get("lazy"):
+            # the documented lazy-loading form: factory and protocols given as 'module.Name' strings
+            setattr(fmod, "f%d" % noffers[0], factory)
+            offer = AdaptationOffer(factory="verif_c17_factories.f%d" % noffers[0], from_protocol=dotted(ts[f]),
+                                    to_protocol=dotted(ts[t]))
+        else:
+            offer = AdaptationOffer(factory=factory, from_protocol=ts[f], to_protocol=ts[t])
+        m.register_offer(offer)
         noffers[0] += 1
 
     for f, t, fac in case["offers"]:
